@@ -394,13 +394,28 @@ fn run_meta<T: FromMeta + Observe>(entry: &MetaEntry, meta: &syn::Meta) -> Resul
     }
 }
 
+// keyed collections as root targets; R?H* hash maps and their ordered twins R?B* share site ids
+pub type RHS = HashMap<String, PM<2701>, B>;
+pub type RBS = BTreeMap<String, PM<2701>>;
+pub type RHI = HashMap<syn::Ident, PM<2702>, B>;
+pub type RBI = BTreeMap<syn::Ident, PM<2702>>;
+pub type RHP = HashMap<syn::Path, PM<2703>, B>;
+pub type RHN = HashMap<String, HashMap<String, PM<2704>, B>, B>;
+pub type RBN = BTreeMap<String, BTreeMap<String, PM<2704>>>;
+pub type RHH = HashMap<String, PH<2705>, B>;
+pub type RBH = BTreeMap<String, PH<2705>>;
+pub type RHB = HashMap<String, bool, B>;
+pub type RBB = BTreeMap<String, bool>;
+pub type RHU = HashMap<String, u8, B>;
+pub type RBU = BTreeMap<String, u8>;
+
 /// Run a FromMeta-family entry point of the named receiver. `None` = unknown receiver name.
 pub fn run_meta_receiver(name: &str, entry: &MetaEntry, meta: &syn::Meta) -> Option<Result<Option<V>, darling::Error>> {
     meta_dispatch!(
         name,
         entry,
         meta,
-        [S1, S2, S3, S4, S5, S6, S7, S8, S9, S10, S11, N1, N2, Rec, F1, F2, F3, F4, U1, NT1, NT2, W1, E1, E2, E3, EH, WR, MP]
+        [S1, S2, S3, S4, S5, S6, S7, S8, S9, S10, S11, N1, N2, Rec, F1, F2, F3, F4, U1, NT1, NT2, W1, E1, E2, E3, EH, WR, MP, RHS, RBS, RHI, RBI, RHP, RHN, RBN, RHH, RBH, RHB, RBB, RHU, RBU]
     )
 }
 
